@@ -2597,12 +2597,19 @@ ABTU_ret_err int ABTI_ythread_create_sched(ABTI_global *p_global,
 
     /* Allocate a ULT object and its stack */
     ABTI_thread_attr_init(&attr, NULL, p_global->sched_stacksize, ABT_FALSE);
+    ABTI_ythread *p_newthread;
     int abt_errno = ythread_create(p_global, p_local, p_pool,
                                    (void (*)(void *))p_sched->run,
                                    (void *)ABTI_sched_get_handle(p_sched),
                                    &attr, ABTI_THREAD_TYPE_YIELDABLE, p_sched,
-                                   THREAD_POOL_OP_PUSH, &p_sched->p_ythread);
+                                   THREAD_POOL_OP_INIT, &p_newthread);
     ABTI_CHECK_ERROR(abt_errno);
+    /* p_ythread must be set before the ULT is pushed: once it is in the pool,
+     * another execution stream can run the scheduler to completion and free
+     * p_sched (if it is automatic) at any moment. */
+    p_sched->p_ythread = p_newthread;
+    ABTI_pool_push(p_pool, p_newthread->thread.unit,
+                   ABT_POOL_CONTEXT_OP_THREAD_CREATE);
     return ABT_SUCCESS;
 }
 
